@@ -1,6 +1,7 @@
 package main
 
 import (
+	"regexp"
 	"errors"
 	"fmt"
 	"strings"
@@ -9,6 +10,8 @@ import (
 )
 
 func init() { props["C06"] = propC06 }
+
+var c06AttrRe = regexp.MustCompile(` :([a-z])`)
 
 type scopeTree struct {
 	leaf     *val
@@ -229,6 +232,13 @@ func propC06(c *ctx) error {
 						tpl := frag + `<` + tag + strings.Join(as, "") + `><li :text="[${x}]">o</li> <li :title="[${x}]">p</li></` + tag + `><i :text="(${x})">o</i>`
 						data := vMap(kv{"x", vStr("d")}, kv{"two", vIntSlice(1, 2)}, kv{"ins", vAnySlice(vStr("in"), vStr("in"))}).j
 						rc := &renderCase{Files: [][2]string{{"t", tpl}}, Tpl: "t", Data: data, Global: vMap(kv{"x", vStr("global-x")}).j}
+						// the same under directive prefixes made of the letters directive names start with
+						if pi := (i + j + bi) % 4; pi > 0 {
+							ap := []string{"", "w:", "wire:", "ri-"}[pi]
+							tpl = c06AttrRe.ReplaceAllString(tpl, " "+ap+"$1")
+							rc.Files = [][2]string{{"t", tpl}}
+							rc.Cfg = map[string]any{"attrPrefix": ap}
+						}
 						impl, _, err := compareRender(c, rc, true)
 						if err != nil {
 							return err
